@@ -19,7 +19,7 @@ from vf.checks import c14
 
 SHARDS = {'quick': 16, 'thorough': 64}
 TIMEOUT = {'quick': 1500, 'thorough': 7200}
-MUST_HIT = ['Xsd.well-formed', 'Xsd.types', 'Xsd.classes', 'Xsd.after-edit', 'Xsd.cli-file',
+MUST_HIT = ['Xsd.attribute-of-unsupported-data-type', 'Xsd.well-formed', 'Xsd.types', 'Xsd.classes', 'Xsd.after-edit', 'Xsd.cli-file',
             'Xsd.enumerator-order', 'Xsd.real-model-edit', 'Xsd.xml-special-names']
 MUST_REACH = ['bridgepoint/gen_xsd_schema.py:build_schema', 'bridgepoint/gen_xsd_schema.py:build_component',
               'bridgepoint/gen_xsd_schema.py:build_class', 'bridgepoint/gen_xsd_schema.py:build_enum_type',
@@ -127,9 +127,9 @@ def edit(rng, d):
         return c14.edit(rng, d) if k != 'move' else move(rng, d)
     if k == 'add-attr':
         c = rng.choice(d.classes)
-        c.attrs.insert(rng.randint(1, len(c.attrs)), bp.Attr('added%d' % rng.randrange(1000),
-                                                            rng.choice(c14.TYPES + ['Color', 'Deep_t', 'void'])))
-        return ('add-attr', c.kl)
+        ty = rng.choice(c14.TYPES + ['Color', 'Deep_t', 'void'] + unsupported_types(d, c))
+        c.attrs.insert(rng.randint(1, len(c.attrs)), bp.Attr('added%d' % rng.randrange(1000), ty))
+        return ('add-attr', c.kl, ty)
     if k == 'add-enum':
         n, vals, w = d.enums[0]
         vals.insert(rng.randint(0, len(vals)), 'E%d' % rng.randrange(1000))
@@ -144,6 +144,13 @@ def edit(rng, d):
                        rng.choice(('pkg', 'comp'))))
         return ('add-user-type', name)
     return None
+
+
+def unsupported_types(d, c):
+    '''data types that are neither core, enumeration nor user type: no attribute may be declared for them'''
+    if not d.sdts:
+        d.sdts.append(('Struct_t', 'pkg'))
+    return ['Struct_t', 'inst_ref<%s>' % c.name, 'inst_ref_set<%s>' % c.name]
 
 
 def move(rng, d):
@@ -166,6 +173,10 @@ def move(rng, d):
 def one_diagram(ctx, rng, tmpdir):
     d = c14.random_diagram(rng, derived_keys=True)
     d.enums.append(('Local_Enum', ['L1', 'L2'], 'comp'))
+    for c in d.classes:
+        if rng.random() < 0.3:
+            ctx.hit('Xsd.attribute-of-unsupported-data-type')
+            c.attrs.append(bp.Attr('odd%d' % rng.randrange(100), rng.choice(unsupported_types(d, c))))
     if rng.random() < 0.7:
         special_names(rng, d)
         ctx.hit('Xsd.xml-special-names')
